@@ -692,7 +692,7 @@ func main() {
 		"stream B: every distinct text of the Untypeds tables of $VERIF_REPO/imports (read with go/parser at run time); stream C: hand-written and mutated texts (model correspondence only). "+
 		"Oracle A: Unmarshal(Marshal(k,v)) has kind k and EXACTLY the value v (big.Int/big.Rat/big.Float comparison + constant.Compare; strings bytewise); oracle B: Marshal(Unmarshal(t)) == t. "+
 		"non-trivial = stream A/B case whose value is not nil; distinct by SHA-256 of the marshalled text")
-	wd := vh.NewWatchdog(rep, 20*time.Second)
+	wd := vh.NewWatchdog(rep, 180*time.Second)
 	repo := os.Getenv("VERIF_REPO")
 	if repo == "" {
 		repo = "/repo"
